@@ -272,6 +272,15 @@ func c11R4(c *Ctx) {
 			c.bad(name+"/tells-peer", c.pos(f.Pos()), "the reporter never tells the peer")
 			continue
 		}
+		for _, sx := range sends {
+			okT := true
+			for _, l := range origins(sx.Common().Args[1], originOpts{}) {
+				if k, isS := constString(strip(l.V)); !isS || (k != "fail" && k != "FAIL") {
+					okT = false
+				}
+			}
+			c.check(okT, name+"/fail-line-type", c.ipos(sx), "the line that tells the peer is of type fail / FAIL", "the line that tells the peer why is not a fail / FAIL line (type and text swapped, or another type): the peer does not recognise it")
+		}
 		for _, w := range []struct {
 			nm   string
 			as   []assumption
